@@ -153,6 +153,9 @@ func (n *Net) actionFor(d *Datagram) Action {
 	return ActDeliver
 }
 
+// ClearFaults makes the network reliable FIFO from now on (faults apply to the handshake only).
+func (n *Net) ClearFaults() { n.faults = map[[2]int]Action{} }
+
 // HeldCount returns the number of datagrams currently held back.
 func (n *Net) HeldCount() int { return len(n.held) }
 
